@@ -4,7 +4,8 @@
 (*    must return an error iff a cycle is reachable from the root;              *)
 (*  nest cases: `repeat` copies of a shape of containers (s slice, m map) and   *)
 (*    indirections (p pointer, i interface) around a leaf; marshaling succeeds  *)
-(*    iff the JSON nesting (slices and maps) is at most MaxD.                   *)
+(*    iff the JSON nesting (slices and maps, plus the levels of the leaf when   *)
+(*    that is an empty container) is at most MaxD.                              *)
 (* In no case may the library panic, crash or fail to terminate.               *)
 EXTENDS Integers, Sequences, FiniteSets, TLC, Json, IOUtils
 
@@ -32,8 +33,10 @@ HasCycle(nodes, root) ==
 Expected(rec) ==
     IF rec.kind = "heap"
     THEN IF HasCycle(rec.nodes, rec.root) THEN "err" ELSE "ok"
-    ELSE LET per == Cardinality({k \in 1..Len(rec.shape) : rec.shape[k] \in {"s", "m"}}) IN
-         IF per * rec.repeat > MaxD THEN "err" ELSE "ok"
+    ELSE LET per == Cardinality({k \in 1..Len(rec.shape) : rec.shape[k] \in {"s", "m"}})
+             \* levels the innermost value adds: an (empty) container is a level, struct{X []int} two
+             leaf == CASE rec.leaf = "" -> 0 [] rec.leaf = "sx" -> 2 [] OTHER -> 1 IN
+         IF per * rec.repeat + leaf > MaxD THEN "err" ELSE "ok"
 
 Init == l = 1 /\ rej = <<>>
 
